@@ -44,7 +44,7 @@ func init() {
 				{Name: "schema-rows", Variant: "plain", Cases: nt, Run: c05schemaCase, CaseTimeout: 120 * time.Second,
 					Required: []string{"schema_row_sets"}},
 				{Name: "sessions", Variant: "race", Cases: ns, Run: c05sessionCase, CaseTimeout: 120 * time.Second,
-					Required: []string{"sessions", "unexpected_in_handshake", "unexpected_reply_to_request", "hostile_events", "mutated_replies", "sessions_with_event_classes_disabled", "events_on_unregistered_connection", "unexpected_reply_to_heartbeat", "inconsistent_prepared_answers"}},
+					Required: []string{"sessions", "unexpected_in_handshake", "unexpected_reply_to_request", "hostile_events", "mutated_replies", "sessions_with_event_classes_disabled", "events_on_unregistered_connection", "unexpected_reply_to_heartbeat", "inconsistent_prepared_answers", "results_with_pages_of_different_width", "rows_read_from_shifting_pages"}},
 			}
 		},
 	})
